@@ -250,6 +250,57 @@ func longSession(run *mc.Run, n int) int {
 	return len(h)
 }
 
+// manySessions: a linear history with m sessions in flight at once (no small alphabet reaches that): the
+// LOGIN records of all sessions, then half of the logins, one event per session, the other half of the logins,
+// the rest of every session. Judged step by step by the reference model plus the identity oracle.
+func manySessions(run *mc.Run, m int) int {
+	cfg := &Config{Name: fmt.Sprintf("%s-many-sessions-%d", run.Prop, m), OSeq: true, OIdent: true}
+	for i := 0; i < m; i++ {
+		cfg.Sess = append(cfg.Sess, SessDef{ID: fmt.Sprint(1000 + i), PID: fmt.Sprint(20000 + i), Events: []auparse.AuditMessageType{tLOGIN, tEV, tEV2, tDISP}})
+		cfg.Logins = append(cfg.Logins, LoginDef{PID: 20000 + i})
+	}
+	var h []Op
+	for i := 0; i < m; i++ {
+		h = append(h, Op{K: "A", I: i, J: 0})
+	}
+	for i := 0; i < m; i += 2 {
+		h = append(h, Op{K: "L", I: i})
+	}
+	for i := m - 1; i >= 0; i-- {
+		h = append(h, Op{K: "A", I: i, J: 1})
+	}
+	for i := 1; i < m; i += 2 {
+		h = append(h, Op{K: "L", I: i})
+	}
+	for i := 0; i < m; i++ {
+		h = append(h, Op{K: "A", I: i, J: 2}, Op{K: "A", I: i, J: 3})
+	}
+	s := &searcher{cfg: cfg, run: run, seen: map[string]bool{}}
+	w := NewWorld(cfg.Sess, cfg.Logins)
+	defer w.Close()
+	sp := NewSpec(cfg.Sess, cfg.Logins)
+	for i, o := range h {
+		before := w.Rec.Len()
+		err, pan := safeApply(w, o)
+		must, may := sp.Apply(o)
+		class, msg := "", ""
+		if pan != "" {
+			class, msg = "panic-or-deadlock:"+o.K, pan
+		} else {
+			class, msg = s.judge(w, sp, o, before, must, may, err)
+		}
+		if class != "" {
+			if len(msg) > 600 {
+				msg = msg[:600] + "..."
+			}
+			run.Violation(fmt.Sprintf("%s:many-sessions:%s", run.Prop, class), map[string]any{"config": "many-sessions", "sessions": m, "failing_step": i, "step": o.String()},
+				fmt.Sprintf("%d sessions in flight at once; step %d %s: %s", m, i, o, msg))
+			break
+		}
+	}
+	return len(h)
+}
+
 // runBFS is the entry point for the history checks.
 func runBFS(run *mc.Run) int {
 	if run.Replay != "" {
@@ -296,6 +347,16 @@ func runBFS(run *mc.Run) int {
 			"max_depth": r.MaxDepth, "closure_reached": r.Complete, "sessions": len(cfg.Sess), "logins": len(cfg.Logins),
 			"transitions_with_nonidentity_iteration_order": r.PermChoices, "fan_out_transitions_every_record_type": r.FanOut, "states_left_unjudged_outside_property_domain": r.Unspecified})
 		fmt.Printf("%s: states=%d transitions=%d depth=%d complete=%v nontrivial=%d permchoices=%d\n", cfg.Name, r.States, r.Transitions, r.MaxDepth, r.Complete, r.NonTrivial, r.PermChoices)
+	}
+	if run.Prop == "C01" || run.Prop == "C02" {
+		m := 300
+		if run.Thorough() {
+			m = 3000
+		}
+		ops := manySessions(run, m)
+		cov.Transitions += ops
+		cov.Evaluations += ops
+		per = append(per, map[string]any{"config": "many-sessions (linear history)", "sessions_in_flight": m, "operations": ops})
 	}
 	if run.Prop == "C02" || run.Prop == "C09" {
 		n := 3000
